@@ -71,10 +71,16 @@ def scale_value(rnd, taken_values, safe=False):
     """A positive rational with at most 18 fractional digits, at least 1e-6
     (relative) away from every value already taken unless it repeats one."""
     for _ in range(200):
+        tiny = False
         kind = rnd.random()
         if taken_values and kind < 0.15:
             return rnd.choice(sorted(taken_values))  # a tie
-        if rnd.random() < 0.08:
+        if rnd.random() < 0.10:
+            # tiny scales at the resolution of the decimal type: their order
+            # must still be the order of their values
+            v = Fraction(rnd.randint(1, 199), 10**18)
+            tiny = True
+        elif rnd.random() < 0.08:
             # integers beyond the range of i32 (an integer literal has to work as a scale, too)
             v = Fraction(rnd.choice([2147483648, 3000000000, 4294967296, 10**10]))
         elif kind < 0.4:
@@ -88,7 +94,7 @@ def scale_value(rnd, taken_values, safe=False):
             v = Fraction(rnd.randint(1, 9999), 10**rnd.randint(0, 4)) * Fraction(10)**rnd.randint(-5, 8)
         if v <= 0 or v == 1:
             continue
-        if safe and not (Fraction(1, 10**6) <= v <= Fraction(10**10)):
+        if safe and not tiny and not (Fraction(1, 10**6) <= v <= Fraction(10**10)):
             continue
         if v.denominator > 10**18 or (v * 10**18).denominator != 1:
             continue
